@@ -532,6 +532,64 @@ func (g *c11Gen) objs(scope []string, depth, n int) []c11Node {
 	return out
 }
 
+// noteCallArgs records the feature "a method call has an argument that itself takes arguments".
+func (g *c11Gen) noteCallArgs(l *c11List) {
+	for _, k := range l.kids {
+		if a, ok := k.(*c11List); ok && a.kind == "add" {
+			g.feature["call-arg-expression"] = true
+		}
+	}
+}
+
+// c11HasCall: does the term contain a method call?
+func c11HasCall(n c11Node) bool {
+	l, ok := n.(*c11List)
+	if !ok {
+		return false
+	}
+	if l.kind == "call" {
+		return true
+	}
+	for _, k := range l.kids {
+		if c11HasCall(k) {
+			return true
+		}
+	}
+	return false
+}
+
+// noteDeferred records the features of While (deferred) blocks: a nested If/While inside a While,
+// and an expression inside a While that has a method call among its operands.
+func (g *c11Gen) noteDeferred(ns []c11Node, inWhile bool) {
+	for _, n := range ns {
+		l, ok := n.(*c11List)
+		if !ok {
+			continue
+		}
+		if inWhile && (l.kind == "if" || l.kind == "while") {
+			g.feature["deferred-nested-block"] = true
+		}
+		if inWhile && l.kind == "add" {
+			for _, k := range l.kids {
+				if c11HasCall(k) {
+					g.feature["deferred-call-in-expression"] = true
+				}
+			}
+		}
+		g.noteDeferred(l.kids, inWhile || l.kind == "while")
+	}
+}
+
+// c11NoObjects: does a statement list create no object at all (only Noops)?
+func c11NoObjects(ss []c11Node) bool {
+	for _, s := range ss {
+		if _, ok := s.(c11Leaf); !ok {
+			return false
+		}
+	}
+	return true
+}
+
 // visible: is `tgt` found by the single-segment upward search started in `scope`?
 func (g *c11Gen) visible(scope, tgt []string) bool {
 	seg := tgt[len(tgt)-1]
@@ -574,6 +632,7 @@ func (g *c11Gen) term(scope []string, depth int) c11Node {
 			if depth < 2 {
 				g.feature["call-nested"] = true
 			}
+			g.noteCallArgs(l)
 			return l
 		}
 	case 4:
@@ -603,13 +662,18 @@ func (g *c11Gen) stmts(scope []string, depth, n int) []c11Node {
 					l.kids = append(l.kids, g.term(scope, 1))
 				}
 				g.feature["call"] = true
+				g.noteCallArgs(l)
 				out = append(out, l)
 			}
 		case 4:
 			if depth > 0 {
-				l := &c11List{kind: "if", kids: append([]c11Node{g.term(scope, 1)}, g.stmts(scope, depth-1, r.intn(3))...)}
+				body := g.stmts(scope, depth-1, r.intn(3))
+				l := &c11List{kind: "if", kids: append([]c11Node{g.term(scope, 1)}, body...)}
 				l.w = c11Width(r, len(l.body()))
 				g.feature["if"] = true
+				if c11NoObjects(body) {
+					g.feature["if-empty-body"] = true
+				}
 				out = append(out, l)
 			}
 		case 5:
@@ -664,6 +728,7 @@ func (g *c11Gen) table(first bool) []c11Node {
 	// method bodies: calls may reference any visible method, declared before or after (forward)
 	for _, m := range g.methods[nm:] {
 		m.node.kids = g.stmts(append(append([]string(nil), m.scope...), m.name), 2, r.intn(5))
+		g.noteDeferred(m.node.kids, false)
 	}
 	c11Fix(r, top)
 	c11Fix(r, top)
@@ -689,7 +754,9 @@ type c11Case struct {
 	feats  string
 }
 
-func c11Hand(id string, tables ...[]c11Node) c11Case { return c11Case{id: id, tables: tables} }
+func c11Hand(id string, feats string, tables ...[]c11Node) c11Case {
+	return c11Case{id: id, tables: tables, feats: feats}
+}
 
 func TestVerifC11(t *testing.T) {
 	if os.Getenv(amlChildEnv) != "" {
@@ -722,23 +789,33 @@ func TestVerifC11(t *testing.T) {
 	var cases []c11Case
 	// deterministic boundary list
 	cases = append(cases,
-		c11Hand("b-empty", nil),
-		c11Hand("b-names", []c11Node{name(N(false, 0, "N000"), c11Int{0, 0}), name(N(false, 0, "N001"), c11Int{0, 1}), name(N(false, 0, "N002"), c11Int{0, 2}),
+		c11Hand("b-empty", "", nil),
+		c11Hand("b-names", "", []c11Node{name(N(false, 0, "N000"), c11Int{0, 0}), name(N(false, 0, "N001"), c11Int{0, 1}), name(N(false, 0, "N002"), c11Int{0, 2}),
 			name(N(false, 0, "N003"), c11Int{2, 0x1234}), name(N(false, 0, "N004"), c11Int{4, 0xdeadbeef}), name(N(false, 0, "N005"), c11Int{8, 0x0123456789abcdef}),
 			name(N(false, 0, "N006"), c11Str{[]byte("hello")}), name(N(false, 0, "N007"), c11Buf{1, 4, []byte{1, 2, 3, 4}}), name(N(true, 0, "N008"), i1(7))}),
-		c11Hand("b-device-nesting", []c11Node{cont("scope", N(false, 0, "_SB_"), cont("device", N(false, 0, "DEV0"), name(N(false, 0, "_HID"), c11Int{4, 0x0a0cd041}),
+		c11Hand("b-device-nesting", "", []c11Node{cont("scope", N(false, 0, "_SB_"), cont("device", N(false, 0, "DEV0"), name(N(false, 0, "_HID"), c11Int{4, 0x0a0cd041}),
 			cont("device", N(false, 0, "DEV1"), name(N(false, 0, "N000"), i1(1)))))}),
-		c11Hand("b-scope-absolute-2seg", []c11Node{cont("scope", N(false, 0, "_SB_"), cont("device", N(false, 0, "DEV0"))),
+		c11Hand("b-scope-absolute-2seg", "scope-absolute", []c11Node{cont("scope", N(false, 0, "_SB_"), cont("device", N(false, 0, "DEV0"))),
 			cont("scope", N(true, 0, "_SB_", "DEV0"), name(N(false, 0, "N000"), i1(1)))}),
-		c11Hand("b-D6-scope-3seg", []c11Node{cont("scope", N(false, 0, "_SB_"), cont("device", N(false, 0, "DEV0"), cont("device", N(false, 0, "DEV1")))),
+		c11Hand("b-D6-scope-3seg", "path-descends-through-scoped-object,scope-absolute", []c11Node{cont("scope", N(false, 0, "_SB_"), cont("device", N(false, 0, "DEV0"), cont("device", N(false, 0, "DEV1")))),
 			cont("scope", N(true, 0, "_SB_", "DEV0", "DEV1"), name(N(false, 0, "N000"), i1(1)))}),
-		c11Hand("b-scope-root", []c11Node{cont("scope", N(true, 0), name(N(false, 0, "N000"), i1(1)))}),
-		c11Hand("b-name-caret", []c11Node{cont("scope", N(false, 0, "_SB_"), cont("device", N(false, 0, "DEV0"), name(N(false, 1, "N000"), i1(1))))}),
-		c11Hand("b-name-dual-relative", []c11Node{cont("scope", N(false, 0, "_SB_"), cont("device", N(false, 0, "DEV0")), name(N(false, 0, "DEV0", "N000"), i1(1)))}),
-		c11Hand("b-call-forward-backward", []c11Node{method(N(false, 0, "M000"), 2, &c11List{kind: "ret", kids: []c11Node{call("M001", c11Leaf{"A0", []byte{0x68}}, call("M002"), c11Leaf{"A1", []byte{0x69}})}}),
+		c11Hand("b-scope-root", "scope-root", []c11Node{cont("scope", N(true, 0), name(N(false, 0, "N000"), i1(1)))}),
+		c11Hand("b-name-caret", "name-caret", []c11Node{cont("scope", N(false, 0, "_SB_"), cont("device", N(false, 0, "DEV0"), name(N(false, 1, "N000"), i1(1))))}),
+		c11Hand("b-name-dual-relative", "name-relative-multi", []c11Node{cont("scope", N(false, 0, "_SB_"), cont("device", N(false, 0, "DEV0")), name(N(false, 0, "DEV0", "N000"), i1(1)))}),
+		c11Hand("b-call-forward-backward", "call,call-nested", []c11Node{method(N(false, 0, "M000"), 2, &c11List{kind: "ret", kids: []c11Node{call("M001", c11Leaf{"A0", []byte{0x68}}, call("M002"), c11Leaf{"A1", []byte{0x69}})}}),
 			method(N(false, 0, "M001"), 3), method(N(false, 0, "M002"), 0, &c11List{kind: "store", kids: []c11Node{call("M000", i1(1), i1(2))}, ints: []uint64{0}})}),
-		c11Hand("b-call-7-args", []c11Node{method(N(false, 0, "M007"), 7), method(N(false, 0, "M000"), 0, call("M007", i1(1), i1(2), i1(3), i1(4), i1(5), i1(6), i1(7)))}),
-		c11Hand("b-later-table", []c11Node{cont("scope", N(false, 0, "_SB_"), cont("device", N(false, 0, "DEV0"), method(N(false, 0, "M000"), 1)))},
+		c11Hand("b-call-7-args", "call", []c11Node{method(N(false, 0, "M007"), 7), method(N(false, 0, "M000"), 0, call("M007", i1(1), i1(2), i1(3), i1(4), i1(5), i1(6), i1(7)))}),
+		c11Hand("b-call-arg-expression", "call,call-arg-expression", []c11Node{method(N(false, 0, "M002"), 2), method(N(false, 0, "M000"), 0,
+			call("M002", &c11List{kind: "add", tgt: -1, kids: []c11Node{i1(1), i1(2)}}, i1(3)))}),
+		c11Hand("b-if-empty-last", "if,if-empty-body", []c11Node{method(N(false, 0, "M000"), 0, &c11List{kind: "if", w: 1, kids: []c11Node{i1(1)}})}),
+		c11Hand("b-if-body", "if", []c11Node{method(N(false, 0, "M000"), 0, &c11List{kind: "if", w: 1, kids: []c11Node{i1(1), &c11List{kind: "ret", kids: []c11Node{i1(2)}}}})}),
+		c11Hand("b-while-deferred", "while-deferred", []c11Node{method(N(false, 0, "M001"), 1), method(N(false, 0, "M000"), 0,
+			&c11List{kind: "while", w: 1, kids: []c11Node{call("M001", i1(1)), &c11List{kind: "store", kids: []c11Node{i1(2)}, ints: []uint64{0}}}})}),
+		c11Hand("b-while-nested-block", "while-deferred,deferred-nested-block,call", []c11Node{method(N(false, 0, "M001"), 1), method(N(false, 0, "M000"), 0,
+			&c11List{kind: "while", w: 1, kids: []c11Node{i1(1), &c11List{kind: "while", w: 1, kids: []c11Node{i1(2), c11Leaf{"noop", []byte{0xa3}}}}, call("M001", i1(3))}})}),
+		c11Hand("b-while-call-in-expression", "while-deferred,deferred-call-in-expression,call", []c11Node{method(N(false, 0, "M001"), 0), method(N(false, 0, "M000"), 0,
+			&c11List{kind: "while", w: 1, kids: []c11Node{i1(1), &c11List{kind: "store", ints: []uint64{0}, kids: []c11Node{&c11List{kind: "add", tgt: -1, kids: []c11Node{i1(1), call("M001")}}}}}})}),
+		c11Hand("b-later-table", "call,later-table-scope", []c11Node{cont("scope", N(false, 0, "_SB_"), cont("device", N(false, 0, "DEV0"), method(N(false, 0, "M000"), 1)))},
 			[]c11Node{cont("scope", N(true, 0, "_SB_", "DEV0"), name(N(false, 0, "N000"), i1(1)), method(N(false, 0, "M001"), 0, call("M000", i1(9))))}),
 	)
 	for i := 0; i < n; i++ {
